@@ -1,16 +1,16 @@
 SPECIFICATION Spec
 CONSTANTS
   Sessions = {"S1", "S2"}
-  Builders = {"B1", "B2"}
-  Fields = {"redir", "compress"}
+  Builders = {"B1"}
+  Fields = {"redir"}
   Vals = {0, 1}
-  HNames = {"x-a", "accept-encoding"}
+  HNames = {"x-a"}
   HVals = {"1"}
-  MaxCells = 6
+  MaxCells = 5
   MaxSteps = 6
-  AllowBack = FALSE
+  AllowBack = TRUE
   SkipDefault = FALSE
-  CopyOnWrite = FALSE
+  CopyOnWrite = TRUE
 PROPERTY IsolationB
 PROPERTY StepRefines
 CHECK_DEADLOCK FALSE
